@@ -23,7 +23,7 @@ import (
 	"github.com/flamego/flamego/verifharness/internal/rt"
 )
 
-const rule = "case = a history of 3..25 operations over one Flame and, per method, one mirror route.Tree populated identically: register(static | optional-static | dynamic route over the same literals | a registered route with one segment replaced by a bind, which shadows it; through Route or, for comma lists in any case, Routes), headers(route, pairs) mirrored with SetHeaderMatcher, request(method, path, headers) with paths = route instances, the route text itself used as a path, extra leading slashes, trailing slashes, optionally an over-escaped URL.RawPath. " +
+const rule = "case = a history of 3..25 operations over one Flame and, per method, one mirror route.Tree populated identically: register(static | optional-static | dynamic route over the same literals | a registered route with one segment replaced by a bind, which shadows it; through Route or, for comma lists in any case, Routes), headers(route, pairs) mirrored with SetHeaderMatcher, request(method, path, headers) with paths = route instances, the route text itself used as a path, extra leading slashes, trailing slashes, the once-decoded spelling of a path with escapes, optionally an over-escaped URL.RawPath. " +
 	"Oracle (differential, after every request): handler that ran / not-found and parameters from Flame.ServeHTTP == Tree.Match on the mirror; additionally == the reference matcher. " +
 	"non-trivial = a history with a request answered by a fully static, unconstrained route (the shortcut's domain) after >=2 registrations, or a request whose path contains route-syntax characters ('?', '{'), or a request that follows a headers operation on a static route; distinct by case text"
 
@@ -388,6 +388,10 @@ func genCase(t *rapid.T) Case {
 				p = "/" + strings.Join(gen.Instance(t, d, rapid.Bool().Draw(t, "sh")), "/") + "/"
 			default:
 				p = strings.Repeat("/", rapid.IntRange(0, 3).Draw(t, "nl")) + strings.Join(gen.Instance(t, d, rapid.Bool().Draw(t, "sh")), "/")
+			}
+			if strings.Contains(p, "%") && rapid.IntRange(0, 2).Draw(t, "decoded") == 0 {
+				// the decoded spelling of a path with escapes is another path
+				p = model.Decode1(p)
 			}
 			var q [][2]string
 			switch rapid.IntRange(0, 3).Draw(t, "qh") {
